@@ -163,6 +163,11 @@ async fn scripted_scenarios(mon: &mut Monitor, dir: &Path, template: &Option<Pat
             signer.clone(),
             vec![Forward(100), Import(100, Via::Importer), Prune(10), RollBackToNumber(50), Forward(60), Import(105, Via::Importer)],
         ),
+        (
+            "a write of a batch of blocks fails in the middle of an import and the import is retried in the same process: chain 1..44, import(10), import(44) in batches of 10 whose second write fails, import(44) again",
+            SutConfig { max_roll_forwards_per_poll: 10, ..aggregator.clone() },
+            vec![Forward(44), Import(10, Via::Importer), ImportWithStoreFault(44, 1)],
+        ),
     ];
     for (i, (name, cfg, script)) in scenarios.into_iter().enumerate() {
         if only.is_some() && only != Some(i as u64) {
